@@ -75,6 +75,12 @@ def make_data(kind, rng, variant=0):
         y = numpy.where(X[:, 0] + 0.3 * r.randn(n) > 0, lab[1], lab[0])
         y[0], y[1] = lab[0], lab[1]
         return X, y, None
+    if kind == "clfw":      # binary labels with markedly non-uniform sample weights
+        X = r.randn(n, d)
+        y = numpy.where(X[:, 0] + 0.3 * r.randn(n) > 0, 1, 0)
+        y[0], y[1] = 0, 1
+        w = numpy.where(X[:, 1] > 0, 5.0, 0.25) + 0.01 * numpy.arange(n)
+        return X, y, w
     if kind == "clf3":
         X = r.randn(n, d)
         y = (X[:, 0] > 0.4).astype(int) + (X[:, 0] > -0.4).astype(int) + 10 * (variant % 3)
@@ -203,6 +209,15 @@ def build_menu():
                    lambda inner=None: M.ClassifierAfterKMeans(estimator=clf(inner),
                                                               clus=KMeans(2, random_state=0, n_init=2)),
                    "clf", ["predict", "predict_proba"], "clf"))
+    from sklearn.cluster import Birch
+    E.append(Entry("ClassifierAfterKMeans[KMeans,weights]", "ClassifierAfterKMeans",
+                   lambda inner=None: M.ClassifierAfterKMeans(estimator=LogisticRegression(),
+                                                              clus=KMeans(2, random_state=0, n_init=2)),
+                   "clfw", ["predict", "predict_proba"]))
+    E.append(Entry("ClassifierAfterKMeans[Birch,weights]", "ClassifierAfterKMeans",     # Birch.fit takes no sample_weight
+                   lambda inner=None: M.ClassifierAfterKMeans(estimator=LogisticRegression(),
+                                                              clus=Birch(n_clusters=2, threshold=0.2)),
+                   "clfw", ["predict", "predict_proba"]))
     E.append(Entry("ClassifierAfterKMeans[warm_start]", "ClassifierAfterKMeans",
                    lambda inner=None: M.ClassifierAfterKMeans(estimator=LogisticRegression(warm_start=True, max_iter=4),
                                                               clus=KMeans(2, random_state=0, n_init=2)),
